@@ -26,6 +26,9 @@ def main():
     if "--round5" in sys.argv:
         base = "/tmp/wt5"
         label = {"A": "H"}[x]
+    if "--round6" in sys.argv:
+        base = "/tmp/wt6"
+        label = {"A": "I"}[x]
     src = f"{base}/{prop}/seeded"
     patch = f"{src}/{x}.patch"
     demo = f"{src}/demo_{x.lower()}.rs"
